@@ -91,22 +91,22 @@ type raceReport struct {
 }
 
 type raceGroupIn struct {
-	Loc    string   `json:"loc"`
-	KindA  string   `json:"kindA"`
-	KindB  string   `json:"kindB"`
-	SitesA []string `json:"sitesA"`
-	SitesB []string `json:"sitesB"`
+	Loc    string      `json:"loc"`
+	KindA  string      `json:"kindA"`
+	KindB  string      `json:"kindB"`
+	SitesA []string    `json:"sitesA"`
+	SitesB []string    `json:"sitesB"`
 	Report *raceReport `json:"report,omitempty"` // for unmapped reports: both stacks
 }
 
 type raceGroupObs struct {
-	Dyn          int    `json:"dyn_reports"`
-	Witness      string `json:"dynamic_witness"` // yes | no
-	Sample       string `json:"sample,omitempty"`
-	Detector     bool   `json:"race_detector"`
-	Mapped       bool   `json:"mapped"`
-	Rounds       int    `json:"rounds"`
-	FatalMapAborts int  `json:"fatal_concurrent_map_aborts"`
+	Dyn            int    `json:"dyn_reports"`
+	Witness        string `json:"dynamic_witness"` // yes | no
+	Sample         string `json:"sample,omitempty"`
+	Detector       bool   `json:"race_detector"`
+	Mapped         bool   `json:"mapped"`
+	Rounds         int    `json:"rounds"`
+	FatalMapAborts int    `json:"fatal_concurrent_map_aborts"`
 }
 
 var raceKindOrder = map[string]int{"KSensorMon": 1, "KRpmMon": 2, "KControl": 3, "KPrelude": 4, "KApi": 5, "KMetrics": 6, "KWebStart": 7, "KAux": 8}
@@ -211,12 +211,6 @@ func raceParent(ctx *Ctx) {
 			childFailures = append(childFailures, fmt.Sprintf("round %d: child did not finish: %s", r, raceTail(out, 600)))
 		}
 	}
-	if len(childFailures) > 0 {
-		// the stress scenario itself broke (not a race): fail the driver so that ./check reports it
-		fmt.Fprintln(os.Stderr, "race: stress child failed:", strings.Join(childFailures, " | "))
-		os.Exit(4)
-	}
-
 	// ---- index the table
 	type ent = raceAccess
 	byKindFunc := map[string][]ent{}
@@ -379,10 +373,22 @@ func raceParent(ctx *Ctx) {
 			tags = append(tags, "dynamic-witness")
 		}
 		ctx.Emit(Record{
-			In:  raceGroupIn{Loc: k.loc, KindA: k.ka, KindB: k.kb, SitesA: raceSome(sites[k][0], 4), SitesB: raceSome(sites[k][1], 4)},
-			Obs: raceGroupObs{Dyn: n, Witness: w, Sample: sample[k], Detector: raceDetectorEnabled, Mapped: true, Rounds: rounds, FatalMapAborts: fatals},
-			Coq: fmt.Sprintf("(mkCase %s %s %s %s true)", raceCoqStr(k.loc), k.ka, k.kb, cZ(n)),
+			In:   raceGroupIn{Loc: k.loc, KindA: k.ka, KindB: k.kb, SitesA: raceSome(sites[k][0], 4), SitesB: raceSome(sites[k][1], 4)},
+			Obs:  raceGroupObs{Dyn: n, Witness: w, Sample: sample[k], Detector: raceDetectorEnabled, Mapped: true, Rounds: rounds, FatalMapAborts: fatals},
+			Coq:  fmt.Sprintf("(mkCase %s %s %s %s true)", raceCoqStr(k.loc), k.ka, k.kb, cZ(n)),
 			Tags: tags, NonTrv: true, Key: k.loc + "|" + k.ka + "|" + k.kb,
+		})
+	}
+	if len(childFailures) > 0 && ctx.Replay == nil {
+		// the stress scenario itself broke (a panic / fatal error other than a concurrent-map abort, or a hang): the
+		// dynamic half of the correspondence could not be established.  Reported as its own failing, unmapped case;
+		// the static cases above are still judged.
+		msg := strings.Join(childFailures, " | ")
+		ctx.Emit(Record{
+			In:   raceGroupIn{Loc: "?stress-child-failed", KindA: "KAux", KindB: "KAux", SitesA: []string{raceTail(msg, 1500)}},
+			Obs:  raceGroupObs{Dyn: 0, Witness: "no", Sample: raceTail(msg, 300), Detector: raceDetectorEnabled, Mapped: false, Rounds: rounds, FatalMapAborts: fatals},
+			Coq:  `(mkCase "?stress-child-failed"%string KAux KAux 0 false)`,
+			Tags: []string{"stress-child-failed"}, NonTrv: false, Key: "?stress-child-failed",
 		})
 	}
 	seenUn := map[string]bool{}
@@ -407,9 +413,9 @@ func raceParent(ctx *Ctx) {
 		}
 		seenUn[loc] = true
 		ctx.Emit(Record{
-			In:  raceGroupIn{Loc: loc, KindA: ka, KindB: kb, Report: &rep},
-			Obs: raceGroupObs{Dyn: 1, Witness: "yes", Detector: raceDetectorEnabled, Mapped: false, Rounds: rounds, FatalMapAborts: fatals},
-			Coq: fmt.Sprintf("(mkCase %s %s %s 1 false)", raceCoqStr(loc), ka, kb),
+			In:   raceGroupIn{Loc: loc, KindA: ka, KindB: kb, Report: &rep},
+			Obs:  raceGroupObs{Dyn: 1, Witness: "yes", Detector: raceDetectorEnabled, Mapped: false, Rounds: rounds, FatalMapAborts: fatals},
+			Coq:  fmt.Sprintf("(mkCase %s %s %s 1 false)", raceCoqStr(loc), ka, kb),
 			Tags: []string{"unmapped-report"}, NonTrv: true, Key: loc,
 		})
 	}
